@@ -132,6 +132,7 @@ class Scanner:
     def scan_grammar_doc_inner(self) -> StateFn | None:
         if self.peek() in (" ", "\t"):
             self.next()
+            self.start = self.pos
 
         value = self.scan_until(RE_NEWLINE)
         if value is None:
@@ -189,6 +190,7 @@ class Scanner:
     def scan_rule_doc_inner(self) -> StateFn | None:
         if self.peek() in (" ", "\t"):
             self.next()
+            self.start = self.pos
 
         value = self.scan_until(RE_NEWLINE)
         if value is None:
